@@ -247,6 +247,23 @@ class C18(core.PropBase):
             va, vb = {"P": str(narrow[0])}, {"P": str(rng.choice(pool))}
             progs = [[("preprocess",), ("create",)], [("create",), ("preprocess",)], [("create",), ("create",)], [("preprocess",), ("preprocess",), ("create",)]]
             yield {"kind": "history", "doc": doc, "envs": envs, "va": va, "vb": vb, "pa": [list(o) for o in rng.choice(progs)], "pb": [list(o) for o in rng.choice(progs)]}
+        # 2d. pre-emption made deterministic: client A's call is traced and, at evenly spread points inside the package's
+        #     own code (function entries and lines), client B's whole call runs before A continues — every place where a
+        #     thread switch could fall, without waiting for the scheduler to pick it.  Whatever B leaves in shared,
+        #     non-thread-local state (a module-level parser, scratch slots of the shared template) reaches A.
+        for i in range(40 if thorough else 8):
+            doc = G.gen_job_template(rng, full=(i % 2 == 0))
+            if i % 3 == 0:
+                doc = {"specificationVersion": "jobtemplate-2023-09", "name": "n {{Param.N}} {{RawParam.T}} {{Param.N}}",
+                       "parameterDefinitions": [{"name": "N", "type": "INT", "default": 2}, {"name": "T", "type": "STRING", "default": "t"}],
+                       "steps": [{"name": "s", "parameterSpace": {"taskParameterDefinitions": [{"name": "A", "type": "INT", "range": "1-{{Param.N}}"},
+                                                                                                {"name": "B", "type": "STRING", "range": ["{{Param.T}}_{{Param.N}}_{{Param.T}}", "y"]}]},
+                                  "hostRequirements": {"attributes": [{"name": "attr.worker.os.family", "anyOf": ["linux", "{{Param.T}}"]}]},
+                                  "script": {"actions": {"onRun": {"command": "{{Task.Param.A}} {{Param.N}}"}}}}]}
+                va, vb = {"N": "5", "T": "alpha"}, {"N": "7", "T": "beta"}
+            else:
+                va, vb = c05.values_with_refs_text(rng, doc), c05.values_with_refs_text(rng, doc)
+            yield {"kind": "preempt", "doc": doc, "va": va, "vb": vb, "op": rng.choice(["create", "create", "preprocess", "decode"])}
         # 3. threads: the same operations from 2-8 threads on one shared template
         for i in range(6 if thorough else 2):
             doc = G.gen_job_template(rng, full=True)
@@ -324,6 +341,8 @@ class C18(core.PropBase):
                 if cl["A"].vals != case["va"] or cl["B"].vals != case["vb"]:
                     bad.append(["".join(w for w, _ in sched), "value map changed"])
             return ["history", bad[:3]]
+        if case["kind"] == "preempt":
+            return ["preempt", self.preempt(case)]
         # threads
         doc = case["doc"]
         jt = decode_job_template(template=copy.deepcopy(doc))
@@ -355,6 +374,71 @@ class C18(core.PropBase):
             sys.setswitchinterval(old)
         return ["threads", bad[:3]]
 
+    def preempt(self, case):
+        import openjd.model as _pkg
+        root = str(Path(_pkg.__file__).resolve().parent)
+        doc = case["doc"]
+        try:
+            shared = decode_job_template(template=copy.deepcopy(doc))
+        except DecodeValidationError:
+            return []
+
+        def call(client_vals, jt, op):
+            c = Client(jt, doc, client_vals)
+            if op == "decode":
+                try:
+                    return repr(model_to_object(model=decode_job_template(template=copy.deepcopy(doc))))
+                except DecodeValidationError:
+                    return "DecodeValidationError"
+            return repr(c.run((op,)))
+        op = case["op"]
+        alone_a = call(case["va"], decode_job_template(template=copy.deepcopy(doc)), op)
+        alone_b = call(case["vb"], decode_job_template(template=copy.deepcopy(doc)), "create" if op == "decode" else op)
+        # dry run: how many trace points does A's call have inside the package?
+        count = [0]
+
+        def counter(frame, event, arg):
+            # function entries inside the package are the trace points (a window in which shared state is live spans
+            # several calls: parse -> _expression -> _range -> _integer; resolve -> evaluate -> ...)
+            if event == "call" and frame.f_code.co_filename.startswith(root):
+                count[0] += 1
+            return None
+        sys.settrace(counter)
+        try:
+            call(case["va"], shared, op)
+        finally:
+            sys.settrace(None)
+        stride = max(1, count[0] // 500)
+        bad = []
+        seen = [0]
+        busy = [False]
+
+        def tracer(frame, event, arg):
+            if event != "call" or not frame.f_code.co_filename.startswith(root):
+                return None
+            seen[0] += 1
+            if seen[0] % stride == 0 and not busy[0]:
+                busy[0] = True
+                sys.settrace(None)
+                try:
+                    rb = call(case["vb"], shared, "create" if op == "decode" else op)
+                    if rb != alone_b and len(bad) < 3:
+                        bad.append(["B, run inside A at trace point %d" % seen[0], "differs from the isolated call"])
+                finally:
+                    busy[0] = False
+                    sys.settrace(tracer)
+            return None
+        sys.settrace(tracer)
+        try:
+            ra = call(case["va"], shared, op)
+        except BaseException as e:  # noqa: BLE001
+            ra = "raised:" + type(e).__name__
+        finally:
+            sys.settrace(None)
+        if ra != alone_a:
+            bad.append(["A, pre-empted by B at %d points" % (seen[0] // stride), "differs from the isolated call"])
+        return bad[:3]
+
     # ------------------------------------------------------------------ model
     def requests(self, case):
         if case["kind"] != "resolve":
@@ -369,6 +453,8 @@ class C18(core.PropBase):
             return ["history", []]
         if case["kind"] == "threads":
             return ["threads", []]
+        if case["kind"] == "preempt":
+            return ["preempt", []]
         h = replies[0]
         if h[0] == "raise":
             return ["malformed"]
